@@ -331,6 +331,24 @@ def main() -> int:
                 replays.append(rp)
                 lines.append(f"VIOLATION property={prop} replay={rp}")
                 violations.append({"name": "random-history", "unit": "replay/random_histories.py", "verdict": "failed", "hyps": 0})
+        # last resort for the control properties: seeded random pool-like classes served through the real session / parser,
+        # random well-formed and malformed command lines, the observable oracles of C16-C18 (bounded; never counted as proved)
+        if not violations and prop in ("C16", "C17", "C18"):
+            code, out = driver.run_native("replay/random_commands.py", [prop, str(seed), "600"], timeout=600, full=True)
+            bounded_fallback["random_commands"] = {"exit": code, "bound": "600 classes of <=6 members with <=4 parameters, <=17 lines per session, optional second session", "output": out[-600:]}
+            if code == 1:
+                rp = os.path.join(OUT, "replays", f"{prop}-random-commands-{seed}.json")
+                try:
+                    found = json.loads(out[out.index("{"):])
+                except Exception:
+                    found = {"raw": out[-1500:]}
+                doc = {"property": prop, "unit": "; ".join(r["unit"] for r in undecided_units) or "(unknown obligations)", "obligation": "(deductive check undecided: " + "; ".join(str(r["error"]) for r in undecided_units)[:300] + ")",
+                       "path": "", "baseline": "n/a", "verifier": {"verdict": "undecided"}, "found_by": "bounded random-command explorer (stand-in, not a proof)",
+                       "native_replay": {"reproduced": True, "failing_session": found, "command": f"PYTHONPATH={driver.REPO}/src {driver.PY} {HERE}/replay/random_commands.py {prop} {seed} 600"}}
+                json.dump(doc, open(rp, "w"), indent=1)
+                replays.append(rp)
+                lines.append(f"VIOLATION property={prop} replay={rp}")
+                violations.append({"name": "random-commands", "unit": "replay/random_commands.py", "verdict": "failed", "hyps": 0})
     # ---- thorough extras -----------------------------------------------------------------------------
     extras = {}
     if tier == "thorough":
@@ -342,6 +360,11 @@ def main() -> int:
         if re.fullmatch(r"C(0[1-9]|1[0-5])", prop):
             code, out = driver.run_native("replay/random_histories.py", [prop, str(seed), "20000"], timeout=900, full=True)
             extras["bounded_monitor"]["random_histories"] = {"exit": code, "bound": "20000 histories, <=14 operations each", "output": out[-600:]}
+            if code == 1:
+                extras["bounded_monitor"]["violations"] = extras["bounded_monitor"].get("violations", 0) + 1
+        if prop in ("C16", "C17", "C18"):
+            code, out = driver.run_native("replay/random_commands.py", [prop, str(seed), "4000"], timeout=900, full=True)
+            extras["bounded_monitor"]["random_commands"] = {"exit": code, "bound": "4000 classes, <=17 lines per session", "output": out[-600:]}
             if code == 1:
                 extras["bounded_monitor"]["violations"] = extras["bounded_monitor"].get("violations", 0) + 1
         extras["assumed_contract_monitor"] = driver.assumed_contract_monitor()
